@@ -259,9 +259,18 @@ class Pipeline:
             # ... and satisfy the joint constraints: a box on which some w . x exceeds its bound everywhere holds none of them
             if any(sum((box[j][0] if w[j] > 0 else box[j][1]) * w[j] for j in range(3)) > b for w, b in cons):
                 continue
+            # a component that is negative on the whole box is clipped to 0 by the curve (unless the curve is odd): M_i does not
+            # depend on it and Delta_i = M_i - x0_i.  THIS matrix/range has x0_i >= -et_i, so for it sup Delta_i is smaller by the
+            # part of the box below -et_i (the enclosures of Delta_i all end in "- x0_i", so their upper end is sup M_i - lo_i)
+            Dl = list(D)
+            if not self.neg_matters:
+                for i, (bx_lo, bx_hi) in enumerate(box):
+                    if bx_hi <= 0.0 and bx_lo < -et[i]:
+                        hi_ = D[i].hi - ((-et[i]) - bx_lo)
+                        Dl[i] = I(min(D[i].lo, hi_), hi_)
             for row in rows:
                 acc = I(0.0, 0.0)
-                for c, d in zip(row, D):
+                for c, d in zip(row, Dl):
                     acc = acc + I(c, c) * d           # signed: the offsets of clipped negative samples largely cancel in the chroma rows
                 w = max(w, acc.mag)
         return w / BUDGET_CODES, [d.mag for d in D]
@@ -303,13 +312,13 @@ def budget_bb(pl: Pipeline, max_boxes=3000):
 # which (transfer, primaries) pairs are known NOT to close on the reference tree, with the reason (DESIGN.md 8.9)
 
 BT1886_FAMILY = ('BT1886', 'ST170M', 'ST240M', 'BT2020Ten', 'BT2020Twelve')
-NOT_CLOSING_P = ('BT470BG', 'ST170M', 'ST240M', 'P3DCI', 'Tech3213')
+NOT_CLOSING_P = ('ST170M', 'ST240M')
 
 def not_closing(t, p):
     if t == 'BT470BG':
         return 'gamma 2.8: a worst-case linear-light error of 1e-5 in a near-zero component of a saturated colour (a-priori rounding through the inverse opsin matrix) becomes 0.016 after x^(1/2.8); bound 1.5-1.7 x budget'
     if t in BT1886_FAMILY and p in NOT_CLOSING_P:
-        return 'bound 1.007-1.043 x budget: worst-case rounding through the inverse opsin and primaries matrices for a saturated colour with one near-black component'
+        return 'bound 1.015 x budget: worst-case rounding through the inverse opsin and primaries matrices for a saturated colour with one near-black component and one clipped negative component'
     return None
 
 def _work(args):
